@@ -775,6 +775,19 @@ func (in *Interp) callUser(fr *frame, callee *a.Func, args map[t.ID]Value, captu
 	if callee.Effect().Coroutine() && capture {
 		return in.runInstance(name, callee, args)
 	}
+	if callee.Effect().Coroutine() && in.Obj.coros[name] != nil {
+		// The callee was left suspended by an earlier "=?" call: a coroutine's resumption state belongs to the
+		// function (it lives in the receiver), not to the call site, so this plain call resumes it. Its
+		// suspensions suspend the caller, as for any plain "?" call.
+		for {
+			st := in.runInstance(name, callee, args)
+			if st.K == KStatus && isSuspension(st.S) {
+				in.suspend(fr, st.S)
+				continue
+			}
+			return st
+		}
+	}
 	nf := &frame{fn: callee, locals: map[t.ID]Value{}, args: args, co: fr.co, facts: fr.facts}
 	return in.execFunc(nf)
 }
